@@ -104,7 +104,11 @@ CheckDiag(ev) ==
   ELSE LET want == IF ev.fn = "Satisfies" THEN SatisfiesMsg(ev.e, ev.a) ELSE DiagOf(ev.e) IN
        IF want # OkMsg /\ ev.msg # want THEN {"diagnostic"} ELSE {}
 
-Check(ev) == CheckDiag(ev) \cup (IF ev.fn = "Satisfies" THEN CheckSatisfies(ev)
+\* a call is a function of its arguments (C13): identical calls answer identically, and a result handed to the caller is
+\* not changed by later calls
+CheckPure(ev) == (IF ev.unstable > 0 THEN {"unstable-result"} ELSE {}) \cup (IF ev.alias THEN {"result-overwritten"} ELSE {})
+
+Check(ev) == CheckDiag(ev) \cup CheckPure(ev) \cup (IF ev.fn = "Satisfies" THEN CheckSatisfies(ev)
               ELSE IF ev.fn = "ValidateLicenses" THEN CheckValidate(ev)
               ELSE IF ev.fn = "ExtractLicenses" THEN CheckExtract(ev)
               ELSE {"unknown-function"}) \cup CheckStages(ev)
